@@ -51,10 +51,10 @@ func init() {
 			{Name: "faults", Weight: 1, Bubble: true, Run: func(e *Env) {
 				t := e.T
 				cfg := srvCfg{prop: "C15", nConns: t.Range(3, 4), msgsPer: [2]int{1, 5}, parkPct: 25, answerPct: 100,
-					panicPct: 1, malformed: true, rst: true, acceptErrs: true, lateConn: true}
+					panicPct: 1, malformed: true, rst: true, acceptErrs: true, lateConn: true, extraReg: true}
 				newSrvWorld(e, cfg).run()
 			}},
 		},
-		MustProbes: []string{"late-connection", "malformed-reported", "recovered-panic-logged"},
+		MustProbes: []string{"late-connection", "malformed-reported", "recovered-panic-logged", "runtime-registration"},
 	})
 }
